@@ -1,1 +1,4 @@
+pub mod boxw;
 pub mod chunk;
+pub mod sodium;
+pub mod stream;
